@@ -35,6 +35,24 @@ func concatSources(v ssa.Value, depth int) []string {
 			}
 			return out
 		}
+		// slices.Concat(a, b, ...): the arguments in order
+		if sc := x.Call.StaticCallee(); sc != nil {
+			g := sc
+			if sc.Origin() != nil {
+				g = sc.Origin()
+			}
+			if pk := pkgOfFunc(g); pk != nil && pk.Path() == "slices" && g.Name() == "Concat" && len(x.Call.Args) == 1 {
+				var out []string
+				for _, a := range variadicValues(x.Call.Args[0]) {
+					if a == nil {
+						out = append(out, "?")
+						continue
+					}
+					out = append(out, concatSources(a, depth+1)...)
+				}
+				return out
+			}
+		}
 		if o := CalleeObj(&x.Call); o != nil && o.Pkg() != nil {
 			return []string{"call:" + o.Pkg().Name() + "." + o.Name()}
 		}
